@@ -307,6 +307,7 @@ type ReadSt struct {
 	SG  map[string][]string `json:"sg"`
 	Pre map[string][]string `json:"pre"`
 	RK  map[string]int      `json:"rk"`
+	Big bool                `json:"big"` // the amount scale exceeds 2^53 (amounts are not exactly representable as float64)
 }
 
 // RLine is one NDJSON line: kind "state" (carries st) or "read" (refers to the latest state line).
@@ -883,7 +884,8 @@ func (e *Env) ObserveReads(l string) (*ReadSt, error) {
 	if err != nil {
 		return nil, err
 	}
-	st := &ReadSt{LedgerObs: obs, JR: []JEntry{}, SG: map[string][]string{}, Pre: map[string][]string{}, RK: map[string]int{}}
+	st := &ReadSt{LedgerObs: obs, JR: []JEntry{}, SG: map[string][]string{}, Pre: map[string][]string{}, RK: map[string]int{},
+		Big: e.Scale.B.BitLen() > 53}
 	for _, lg := range obs.Logs {
 		var raw struct {
 			Data struct {
